@@ -45,7 +45,7 @@ class Rec(MessagePassingComputation):
         self._msg_handlers["m"] = self._on_m
 
     def _on_m(self, sender, msg, t):
-        self.log["handled"].append(msg.content)
+        self.log["handled"].append(self.log["ids"][id(msg)])
         if self.reply_next:
             self.reply_next = False
             self.log["owner"].do_post()
@@ -61,7 +61,9 @@ class Driver:
         # a1 knows where the destination of c's posts lives (what discovery would have told it)
         self.a1.discovery.register_agent("a2", self.a2.address, publish=False)
         self.a1.discovery.register_computation("sink", "a2", self.a2.address, publish=False)
-        self.log = {"handled": [], "sent": [], "recvOrder": [], "postOrder": [], "owner": self}
+        # message CONTENTS repeat (every message of one sender is equal to its previous ones, as e.g. repeated value messages
+        # are); messages are told apart by object identity (the in-process transport hands over the object itself)
+        self.log = {"handled": [], "sent": [], "recvOrder": [], "postOrder": [], "owner": self, "ids": {}, "keep": []}
         self.c = Rec("c", self.log)
         self.a1.add_computation(self.c)
         inner_send = self.c.message_sender
@@ -69,14 +71,14 @@ class Driver:
 
         def sender(src, dst, msg, prio=None, on_error=None):
             if src == "c" and dst == "sink":
-                log["sent"].append(msg.content)
+                log["sent"].append(log["ids"][id(msg)])
             return inner_send(src, dst, msg, prio, on_error)
         self.c._msg_sender = sender        # (the property setter refuses a second assignment)
         inner_on = self.c.on_message
 
         def on_message(s, msg, t):
-            if msg.content not in log["recvOrder"]:
-                log["recvOrder"].append(msg.content)
+            if log["ids"][id(msg)] not in log["recvOrder"]:
+                log["recvOrder"].append(log["ids"][id(msg)])
             buffered = self.c.is_paused or not self.c.is_running
             if buffered and any(e[0] == 19 for e in self.queue_entries()):
                 self.overlap = True
@@ -86,12 +88,18 @@ class Driver:
         self.overlap = False
 
     def queue_entries(self):
-        return sorted((e[0], e[1], e[3].msg.content) for e in self.a1._messaging._queue.queue if e[3].dest_comp == "c")
+        return sorted((e[0], e[1], self.log["ids"][id(e[3].msg)]) for e in self.a1._messaging._queue.queue if e[3].dest_comp == "c")
+
+    def new_msg(self, ty, ident):
+        m = Message(ty, "same content" if ty == "p" else ident % 2)
+        self.log["ids"][id(m)] = ident
+        self.log["keep"].append(m)
+        return m
 
     def do_post(self):
         self.npid += 1
         self.log["postOrder"].append(self.npid)
-        self.c.post_msg("sink", Message("p", self.npid))
+        self.c.post_msg("sink", self.new_msg("p", self.npid))
 
     def apply(self, a):
         n = a["n"]
@@ -99,7 +107,7 @@ class Driver:
             self.nmid += 1
             assert self.nmid == a["mid"]
             # the message reaches the agent the way the in-process transport delivers it
-            self.a1._messaging.post_msg("s%d" % (self.nmid % 2), "c", Message("m", self.nmid))
+            self.a1._messaging.post_msg("s%d" % (self.nmid % 2), "c", self.new_msg("m", self.nmid))
         elif n == "post":
             self.do_post()
         elif n == "next":
@@ -118,8 +126,8 @@ class Driver:
     def project(self):
         c = self.c
         return {"running": c.is_running, "paused": c.is_paused,
-                "bufRecv": [m.content for _, m, _ in c._paused_messages_recv],
-                "bufPost": [p[1].content for p in c._paused_messages_post],
+                "bufRecv": [self.log["ids"][id(m)] for _, m, _ in c._paused_messages_recv],
+                "bufPost": [self.log["ids"][id(p[1])] for p in c._paused_messages_post],
                 "queue": [{"prio": e[0], "mid": e[2]} for e in self.queue_entries()],
                 "handled": list(self.log["handled"]), "sent": list(self.log["sent"]), "overlap": self.overlap}
 
